@@ -19,6 +19,8 @@ import (
 	"net"
 	"os"
 	"path/filepath"
+	"encoding/binary"
+	"runtime"
 	"runtime/debug"
 	"sort"
 	"strings"
@@ -342,6 +344,8 @@ func c19Texts(es []c19Entry) []string {
 
 // c19Station is a station brought up the way main.go does it, minus sockets.
 type c19Station struct {
+	annMu    sync.Mutex
+	anns     []string // phantoms announced to the detector (New or Update)
 	rm       *RegistrationManager
 	realLive liveness.Tester
 	zmq      *ZMQIngester
@@ -395,8 +399,13 @@ func c19BringUp(x *c19Ctx, conf *Config, withIngest bool) (st *c19Station, rejec
 	_ = rm.AddTransport(pb.TransportType_Min, min.Transport{})
 	_ = rm.AddTransport(pb.TransportType_Obfs4, obfs4.Transport{})
 	_ = rm.AddTransport(pb.TransportType_Prefix, x.prefixTp)
-	rm.registeredDecoys.registerForDetector = func(d *DecoyRegistration) {}
-	rm.registeredDecoys.updateInDetector = func(d *DecoyRegistration) {}
+	note := func(d *DecoyRegistration) {
+		st.annMu.Lock()
+		st.anns = append(st.anns, d.PhantomIp.String())
+		st.annMu.Unlock()
+	}
+	rm.registeredDecoys.registerForDetector = note
+	rm.registeredDecoys.updateInDetector = note
 
 	st.regChan = make(chan interface{})
 	var zerr error
@@ -532,6 +541,135 @@ func (st *c19Station) ingest(regs []c19RegSpec, res *c19Result) {
 	}
 }
 
+var c19AllSources = []pb.RegistrationSource{pb.RegistrationSource_Unspecified, pb.RegistrationSource_Detector, pb.RegistrationSource_API,
+	pb.RegistrationSource_DetectorPrescan, pb.RegistrationSource_BidirectionalAPI, pb.RegistrationSource_DNS, pb.RegistrationSource_BidirectionalDNS}
+
+var c19ProbeSecret int64
+
+// phantomIngestProbes: the phantom blocklist enforced where it matters. For every phantom_blocklist
+// entry a registration on a phantom inside it (the registrar's phantom override, applied by the real
+// NewRegistrationC2SWrapper) is ingested through the real ingestRegistration for EVERY registration
+// source x prescanned flag with the configuration's own share setting, and for the Detector source
+// also with the other share setting (peer endpoint that refuses). Whatever the source, it must never
+// become valid or be announced to the detector. A control registration on a phantom in no entry shows
+// that the same registration does become valid otherwise.
+func (st *c19Station) phantomIngestProbes(x *c19Ctx, c c19Conf, res *c19Result) {
+	l := c.list("phantom_blocklist")
+	if l == nil || len(l.Entries) == 0 {
+		return
+	}
+	pol := c19BuildPolicy(c)
+	covert := c19AllowedCovert(x, pol)
+	stub := &vTester{}
+	st.rm.LivenessTester = stub
+	defer func() { st.rm.LivenessTester = st.realLive }()
+	share0, ep0 := st.rm.EnableShareOverAPI, st.rm.PreshareEndpoint
+	defer func() { st.rm.EnableShareOverAPI, st.rm.PreshareEndpoint = share0, ep0 }()
+	baseG := runtime.NumGoroutine()
+	regAddr := net.ParseIP("198.51.100.7").To4()
+
+	// returns (built, valid-or-announced)
+	try := func(ip net.IP, src pb.RegistrationSource, prescanned bool) (bool, bool, *c19Panic) {
+		v6 := ip.To4() == nil
+		w := vWrapper(vSecret(20000+int(atomic.AddInt64(&c19ProbeSecret, 1))), pb.TransportType_Min, 0, covert, !v6, v6, 4, 957, src, regAddr)
+		w.RegistrationPayload.Flags = &pb.RegistrationFlags{Prescanned: proto.Bool(prescanned)}
+		rr := &pb.RegistrationResponse{}
+		if v6 {
+			rr.Ipv6Addr = append([]byte(nil), ip.To16()...)
+		} else {
+			rr.Ipv4Addr = proto.Uint32(binary.BigEndian.Uint32(ip.To4()))
+		}
+		w.RegistrationResponse = rr
+		built, bad := false, false
+		p := c19Recover(func() {
+			reg, err := st.rm.NewRegistrationC2SWrapper(w, v6)
+			if err != nil || reg == nil || !reg.PhantomIp.Equal(ip) {
+				return
+			}
+			built = true
+			st.annMu.Lock()
+			n0 := len(st.anns)
+			st.annMu.Unlock()
+			st.rm.ingestRegistration(reg)
+			st.annMu.Lock()
+			for _, a := range st.anns[n0:] {
+				if a == ip.String() {
+					bad = true
+				}
+			}
+			st.annMu.Unlock()
+			r := st.rm.registeredDecoys
+			r.m.RLock()
+			for _, d := range r.decoys[ip.String()] {
+				if d.Valid {
+					bad = true
+				}
+			}
+			r.m.RUnlock()
+		})
+		return built, bad, p
+	}
+	// control: the same registration on a phantom outside every entry becomes valid
+	controlOK := false
+	for _, s := range []string{"192.122.190.77", "141.219.7.7", "2001:48a8:687f:1::77"} {
+		ip := net.ParseIP(s)
+		if c19In(pol.Phantom, ip) {
+			continue
+		}
+		if built, valid, p := try(ip, pb.RegistrationSource_Detector, false); p == nil && built && valid {
+			controlOK = true
+			break
+		}
+	}
+	if controlOK {
+		res.class("phantom-ingest-control-valid")
+	}
+	for _, e := range l.Entries {
+		n, _, ok := c19ReadCIDR(e.Text)
+		if !ok {
+			continue
+		}
+		ip := c19Probes(n)[0]
+		for _, src := range c19AllSources {
+			shares := []bool{share0}
+			if src == pb.RegistrationSource_Detector {
+				shares = []bool{share0, !share0}
+			}
+			for _, share := range shares {
+				st.rm.EnableShareOverAPI = share
+				st.rm.PreshareEndpoint = ep0
+				if share && ep0 == "" {
+					st.rm.PreshareEndpoint = "http://127.0.0.1:9/c19-peer-refuses"
+				}
+				for _, pre := range []bool{false, true} {
+					built, bad, p := try(ip, src, pre)
+					if p != nil {
+						res.report("panic:after-reload:registration", fmt.Sprintf("ingesting a well-formed registration (source %v) panicked: %s [%s]", src, p.Val, c19ShortStack(p)))
+						continue
+					}
+					if !built {
+						continue
+					}
+					if controlOK {
+						res.class("enforced-phantom-ingest-probe")
+						if src == pb.RegistrationSource_Detector {
+							res.class("enforced-phantom-ingest-probe:detector")
+						}
+					}
+					if bad {
+						res.report("unenforced:phantom_blocklist:ingest", fmt.Sprintf("phantom_blocklist entry %q of an accepted configuration is not enforced at ingest: a registration with source %v (prescanned=%v, enable_share_over_api=%v) on phantom %s, which is inside the entry, became valid / was announced to the detector", e.Text, src, pre, share, ip))
+					}
+				}
+			}
+		}
+	}
+	st.rm.EnableShareOverAPI, st.rm.PreshareEndpoint = share0, ep0
+	// share attempts run in their own goroutines (the peer refuses at once): let them finish
+	for i := 0; i < 2000 && runtime.NumGoroutine() > baseG; i++ {
+		time.Sleep(time.Millisecond)
+	}
+}
+
 func (st *c19Station) age(d time.Duration) {
 	r := st.rm.registeredDecoys
 	r.m.Lock()
@@ -639,6 +777,7 @@ func c19RunConfig(x *c19Ctx, c c19ConfigCase, res *c19Result) {
 	}
 	st.housekeeping("fresh station", res.report)
 	st.ingest(c.Regs, res)
+	st.phantomIngestProbes(x, conf, res)
 	st.housekeeping("after ingest", res.report)
 	for _, d := range []time.Duration{11 * time.Minute, 7 * time.Hour} {
 		st.age(d)
@@ -841,7 +980,7 @@ func TestVerif_C19_config(t *testing.T) {
 	rec := vh.NewRec("C19", "config", "rapid-generated station configurations: every optional key (4 liveness keys, GeoIP paths, worker count, share settings, v4/v6, public-address blocklisting, log level) independently {unset, zero, set, unusable value}, at most one key of the wrong TOML type, optional syntax garbage, optional ZMQ section; blocklist / allowlist / domain / phantom lists {unset, empty, 1-4 entries: pool or random CIDRs, stray whitespace, bare addresses, unparseable, bad regexps, patterns drawn from the regexp syntax at large: [flag][anchor] 1-4 fragments [anchor] over literals in both cases, \\d \\D \\s \\S \\w \\W \\b \\B \\A \\z, POSIX and Unicode classes, (?i) (?s) (?U) and scoped flags, alternations, named groups, \\Q..\\E, hex escapes}; domain oracle = Go regexp on the entry as written over host spellings in written / upper / lower / swapped / title case, embedded and unrelated names: matching hosts refused by ParseOrResolveBlocklisted with no DNS question, hosts matching in neither case reading not refused by the domain policy; plus 0-4 registrations ingested before housekeeping. Loaded through ParseConfig from a temp file, brought up as main.go does. Non-trivial = differs from the shipped file in >= 1 key; distinct by (configuration, registrations)")
 	defer rec.Flush()
 	rec.Require("accepted", "rejected:parse", "live-cache:none", "live-cache:live-only", "live-cache:nonlive-only", "live-cache:both", "live-cache:bounded",
-		"enforced-blocklist-probe", "enforced-allowlist-probe", "enforced-phantom-probe", "enforced-domain-probe", "enforced-domain-probe:mixed-case-host", "domain-nonmatching-probe", "registry-non-empty",
+		"enforced-blocklist-probe", "enforced-allowlist-probe", "enforced-phantom-probe", "enforced-phantom-ingest-probe:detector", "enforced-domain-probe", "enforced-domain-probe:mixed-case-host", "domain-nonmatching-probe", "registry-non-empty",
 		"ingest-buffer:zero-capacity", "ingest-buffer:positive-capacity")
 	x := c19NewCtx(t)
 	if p := vh.ReplayFile(); p != "" {
